@@ -403,10 +403,10 @@ impl<'a> Gen<'a> {
                 let fresh = self.valid(val, &mut cx, depth);
                 let extra: &[&str] = match key {
                     KeyTy::Str => &["", "kc"],
-                    KeyTy::U8 => &["x", "01", "256", "-1", "+2", ""],
-                    KeyTy::I32 => &["x", "-01", "1.5", "2147483648"],
-                    KeyTy::Bool => &["True", "1", ""],
-                    KeyTy::Char => &["xy", "", "é"],
+                    KeyTy::U8 => &["x", "01", "256", "-1", "+2", "", " 1", "2 ", "\t3"],
+                    KeyTy::I32 => &["x", "-01", "1.5", "2147483648", " 7", "-7\u{a0}"],
+                    KeyTy::Bool => &["True", "1", "", " true", "false "],
+                    KeyTy::Char => &["xy", "", "é", " x", "y "],
                 };
                 for k in extra {
                     if !m.iter().any(|(k2, _)| k2 == k) {
@@ -578,6 +578,9 @@ impl<'a> Gen<'a> {
                 states.push((c, 0));
             }
         }
+        // very wide types (dozens of members): a second fault multiplies thousands of single-fault
+        // states by thousands again — they get one fault, plus the saturated payloads
+        let max_faults = if states.iter().any(|(d, _)| d.max_object_len() > 30) { max_faults.min(1) } else { max_faults };
         let mut frontier_start = 0;
         for depth in 1..=max_faults {
             let frontier_end = states.len();
